@@ -318,7 +318,7 @@ class C16(Check):
 
     def strategy(self, tier):
         hi = 8 if tier == 'quick' else 11
-        return G.programs(feats=STATIC_FEATS, min_nodes=2, max_nodes=hi, clean=True, p_feat=50).map(
+        return G.programs(feats=STATIC_FEATS, min_nodes=2, max_nodes=hi, clean=False, p_feat=50).map(
             lambda p: {'program': p})
 
     def examine(self, case):
